@@ -101,7 +101,8 @@ def gen_case(rng, pid, tier):
         lim = {}
         if rng.random() < 0.45:
             for lvl in rng.sample(['server', 'rack', 'pod', 'cell'], rng.randint(1, 2)):
-                lim[lvl] = rng.randint(1, 3)
+                # (0 = "never under a node of this level": servers hang off buckets of any level)
+                lim[lvl] = rng.randint(1, 3) if rng.random() < 0.9 else 0
         aff_limits[aff] = lim
     ops = []
     napp = [0]
